@@ -15,7 +15,7 @@ RULE = ("exhaustive exploration of command histories of depth <=3 (quick) / <=4 
         "each command is the real command executed in-process on the directory state left by its predecessors (runs under the virtual "
         "kernel). states = distinct canonical project states (rows + Merkle digest of cond-out); transitions = commands executed. "
         "invariants: at every experiment spawn the version id exceeds every id recorded in the project and every id handed out "
-        "earlier in the invocation, COND_OUT did not exist before the command and holds nothing but Conductor's own empty log files; "
+        "earlier in the invocation, the id recorded for an execution is the id of the directory it ran in, COND_OUT did not exist before the command and holds nothing but Conductor's own empty log files; "
         "the digest of every recorded version directory is unchanged by every later command and unchanged between the moment its row "
         "is committed and the end of the invocation (one task leaves a background process that holds stdout open past the shell's exit)"
         " The same commands are also run on a variant of the project whose last task lists its dependency twice in two spellings."
@@ -179,6 +179,17 @@ def do_command(root, cmd, clock_t, archives, check):
                 check("dir:missing", "COND_OUT %s did not exist at spawn" % base)
             elif junk:
                 check("dir:not-empty", "%s started with a non-empty COND_OUT %s: %s" % (e[2], base, junk))
+        # the id recorded for an execution is the id of the directory that execution was given
+        given = set()
+        for e in vk.log:
+            if e[0] == "spawn":
+                m_ = VERS.search(e[3]["out"] or "")
+                if m_:
+                    given.add((e[2], int(m_.group(1))))
+        for r_ in hist.rows(root) or []:
+            if (r_[0], r_[1]) not in {(x[0], x[1]) for x in rows_before} and (r_[0], r_[1]) not in given:
+                check("version:recorded-id-not-the-directory", "version %d was recorded for %s, but its execution ran in %s"
+                      % (r_[1], r_[0], sorted(v for k, v in given if k == r_[0])))
         if res.exc is not None and type(res.exc).__name__ != "ConductorAbort":
             check("run:internal-error", "cond run died with %r" % (res.exc,))
     elif cmd in ("restore-old", "restore-new"):
